@@ -87,6 +87,7 @@ def gen_history(ctx, hid, sc, nops):
             kind = rng.choice(["dna", "protein"])
             recs = gen.family(rng, kind, rng.randint(2, 7), rng.choice([10, 60, 200]), spice=False)
             t = rng.choice([3, 4, 5]) if kind == "protein" else rng.choice([0, 1, 2, 5])
+            t = gen.fit_type(t, kind, recs)
             if rng.random() < 0.1:
                 t = 3 if kind != "protein" else 0      # failing call
             H.ops.append(("kalign_arr %d %s %s %s %d - 0 %s" % (t, pen(rng.choice([-1, 5])), pen(-1), pen(rng.choice([-1, 1])), rng.choice([1, 3, 8]),
